@@ -185,13 +185,18 @@ def run(tier='quick'):
     from .. import domains
     domains.apply_rule(prog, eff, chk, P2, gens=(2,), trigger_tables=('playlist', 'playlistentity'), library=False)
     # ---- P3 ------------------------------------------------------------------------------
-    walkers = [(V2 + '(anon)::sort_ids', 'PLAYLIST_NO_NEXT_LIST_ID'),
-               (V2 + 'playlist_entity_table::get_for_list', 'PLAYLIST_ENTITY_NO_NEXT_ENTITY_ID')]
-    for qn, sentinel in walkers:
-        fs = [f for f in prog.by_name(qn) if f.body is not None and not f.is_pattern]
-        if not fs:
-            raise AnalysisBroken('anchor function %s not found' % qn)
-        f = fs[0]
+    # the walkers: whatever function walks the sibling chain for root_ids() / child_ids() (a file-local helper of
+    # any name, or the listing functions themselves), and the walker of the entry chain
+    walkers = [(f_, 'PLAYLIST_NO_NEXT_LIST_ID') for f_ in c07.chain_walkers(
+        prog, cg, (V2 + 'playlist_table::root_ids', V2 + 'playlist_table::child_ids'))]
+    if not walkers:
+        raise AnalysisBroken('no function walks the sibling chain for playlist_table::root_ids / child_ids')
+    ew = c07.chain_walkers(prog, cg, (V2 + 'playlist_entity_table::get_for_list',))
+    if not ew:
+        raise AnalysisBroken('no function walks the entry chain for playlist_entity_table::get_for_list')
+    walkers += [(f_, 'PLAYLIST_ENTITY_NO_NEXT_ENTITY_ID') for f_ in ew]
+    for f, sentinel in walkers:
+        qn = f.qualname
         chk.analysed(f)
         sval = c07._const(prog, sentinel)
         finds = []
@@ -248,11 +253,9 @@ def run(tier='quick'):
             continue
         # the walker: this function or the repository function the map is handed to
         walker = f
-        for e in cg.edges(f):
-            for t in e.targets:
-                if t.body is not None and any(x.get('kind') in ('DoStmt', 'WhileStmt') for x in walk(t.body)) and \
-                        t.cls is None and 'map' in (t.type or ''):
-                    walker = t
+        for t in c07.chain_walkers(prog, cg, (qn,)):
+            if t is not f:
+                walker = t
         ins = set()
         for x in walk(walker.body):
             if x.get('kind') in ('DoStmt', 'WhileStmt', 'ForStmt'):
